@@ -846,7 +846,8 @@ def gen_firstchain(rng, T, nts):
 def gen_malformed(rng, T, nts):
     g = gen_nonleftrec(rng, T, nts)
     kind = rng.choice(["unknown-symbol", "no-start", "nt-is-terminal", "dunder", "duplicate-alt", "end-used",
-                       "no-alternatives", "duplicate-empty", "start-used", "dunder-rhs", "dunder-rhs"])
+                       "no-alternatives", "duplicate-empty", "start-used", "dunder-rhs", "dunder-rhs",
+                       "bad-skip", "dunder-terminal"])
     sym, alts = rng.choice(g)
     if kind == "unknown-symbol":
         alts.append([rng.choice(T), "Q"])
@@ -976,6 +977,11 @@ def gen_spec(rng, malformed_share=0.05, hidden_share=0.04, ll1_share=0.2, dfs_sh
     spec = {"tok": [list(x) for x in var["tok"]], "syn": dict(var["syn"]), "kw": [list(x) for x in var["kw"]],
             "skip": None if var["skip"] is None else list(var["skip"]), "start": start, "prods": g}
     meta = {"gen": gen, "nts": len(nts), "start": "default" if start is None else "explicit"}
+    if kind == "bad-skip":           # skip_tokens names a token the tokenizer does not know: GrammarError
+        spec["skip"] = (spec["skip"] or ["SPACE"]) + ["NOTOKEN"]
+    elif kind == "dunder-terminal":  # a reserved name among the terminals: AssertionError
+        spec["tok"].append(["Z9", "z"])
+        spec["syn"]["Z9"] = "t__1"
     if kind:
         meta["malformed"] = kind
     return spec, var_name, meta
